@@ -100,7 +100,7 @@ theorem nextchar_refines (a : Ascii) (c : UInt8) (h : WF a) (hb : a.bpos < a.nc)
     (((nextchar a c).2.1 = .ok ∧ (nextchar a c).1.bpos < (nextchar a c).1.nc ∧ pos (nextchar a c).1 = pos a + 1 ∧
         a.file[(pos a + 1).toNat]? = some (nextchar a c).2.2) ∨
      ((nextchar a c).2.1 = .eof ∧ (nextchar a c).2.2 = c ∧ pos a + 1 = a.file.size ∧ (nextchar a c).1.nc = 0 ∧
-        (nextchar a c).1.bpos = 0)) := by
+        (nextchar a c).1.bpos = 0 ∧ pos (nextchar a c).1 = pos a + 1)) := by
   have hpos0 : 0 ≤ a.boff := by have := h.boffEq; have := h.ncLe; have := h.moff0; omega
   by_cases hlast : a.nc = a.bpos + 1
   · -- the buffer is used up: one fread
@@ -131,9 +131,11 @@ theorem nextchar_refines (a : Ascii) (c : UInt8) (h : WF a) (hb : a.bpos < a.nc)
     · subst hst
       have hne : (Status.eof != Status.ok) = true := by decide
       simp only [hne, if_true]
-      refine ⟨hwf, hfile', hB', Or.inr ⟨by first | rfl | trivial | simp, by first | rfl | trivial | simp, ?_, by first | exact hnc | simpa using hnc, by first | exact hbp | simpa using hbp⟩⟩
-      have : (a.fpos : Int) = a.file.size := by exact_mod_cast heq
-      omega
+      have hsz : (a.fpos : Int) = a.file.size := by exact_mod_cast heq
+      refine ⟨hwf, hfile', hB', Or.inr ⟨by first | rfl | trivial | simp, by first | rfl | trivial | simp, ?_, by first | exact hnc | simpa using hnc, by first | exact hbp | simpa using hbp, ?_⟩⟩
+      · omega
+      · show pos a' = pos a + 1
+        omega
   · -- stays inside the buffer
     have hlt : a.bpos + 1 < a.nc := by omega
     have hwf : WF { a with bpos := a.bpos + 1 } :=
